@@ -140,7 +140,7 @@ func checkC05(c *Ctx, r *Report) {
 			ci := describeCall(cc)
 			key := fmt.Sprintf("%s:%s", fname(f), ci.Name)
 			switch {
-			case ci.Name == "WriteError" || ci.Name == "writeTranslatorError":
+			case ci.Name == "WriteError" || isTranslatorErrorHelper(cc.StaticCallee()):
 				r.OK("C05-R3", key, in.Pos(), "error written through the translator's error writer")
 			default:
 				// fallback only: dominated by a failed `trans.(translator.ErrorWriter)` / `.(TokenCounter)` assertion
@@ -235,7 +235,7 @@ func checkC05(c *Ctx, r *Report) {
 				st = cc.Args[2]
 			case cc.IsInvoke() && ci.Name == "WriteHeader" && len(cc.Args) == 1:
 				st = cc.Args[0]
-			case ci.Name == "writeGenericStreamingError":
+			case isGenericStatusHelper(cc.StaticCallee()):
 				st = cc.Args[len(cc.Args)-1]
 			default:
 				return
@@ -454,7 +454,7 @@ func checkStreamingGaveUp(c *Ctx, r *Report) {
 	var transform ssa.Instruction
 	eachInstr(w, func(in ssa.Instruction) {
 		if cc := getCall(in); cc != nil {
-			if sc := cc.StaticCallee(); sc != nil && sc.Name() == "transformStreamAndWaitForProxy" {
+			if sc := cc.StaticCallee(); sc != nil && sc == c.Fn(pkgHandlers, "(*Application).transformStreamAndWaitForProxy") {
 				transform = in
 			}
 		}
